@@ -72,7 +72,7 @@ func init() {
 	}
 	register(&PropSpec{
 		ID: "C12",
-		Explanation: "Decides structurally: no decoder of pkg/oidc, pkg/crypto, pkg/http can panic on its input (unchecked assertions, explicit panics, unproven bounds outside the reviewed table, nullable decode targets, codec recursion: same rules as C09 restricted to the codec packages); mergeAndMarshalClaims decodes the registered JSON over the copy of the custom claims (registered wins) and writes custom claims only in the copy loop before that decode; JWTTokenRequest.MarshalJSON overlays the registered JSON on the private map; every type with a `Claims map[string]any json:\"-\"` field (discovered through go/types, 7 today) has the MarshalJSON/UnmarshalJSON pair calling the helpers with (alias(self), self.Claims) / (data, alias(self), &self.Claims) and the alias types carry no codec methods; unmarshalJSONMulti fails on the first destination that fails; the tolerant decoders accept exactly the documented forms and otherwise return an error or the zero value; AES sealing checks the length before slicing and encrypt/decrypt agree on RawURLEncoding, IV length and CFB mode. Does not decide value equality after a round trip nor 'only under the same key'.",
+		Explanation: "Decides structurally: no decoder of pkg/oidc, pkg/crypto, pkg/http can panic on its input (unchecked assertions, explicit panics, unproven bounds outside the reviewed table, nullable decode targets, codec recursion: same rules as C09 restricted to the codec packages); mergeAndMarshalClaims decodes the registered JSON over the copy of the custom claims (registered wins) and writes custom claims only in the copy loop before that decode; JWTTokenRequest.MarshalJSON overlays the registered JSON on the private map; every type with a `Claims map[string]any json:\"-\"` field (discovered through go/types, 7 today) has the MarshalJSON/UnmarshalJSON pair calling the helpers with (alias(self), self.Claims) / (data, alias(self), &self.Claims) and the alias types carry no codec methods; unmarshalJSONMulti fails on the first destination that fails; the tolerant decoders accept exactly the documented forms and otherwise return an error or the zero value; AES sealing checks the length before slicing and encrypt/decrypt agree on RawURLEncoding, IV length and CFB mode. Does not decide value equality after a round trip nor 'only under the same key'. Round 3: AES sealing is total (decrypt / encrypt fail only for undecodable text, bad key, short text, entropy failure); ParseLocales keeps only entries that parse as a whole.",
 		RuleText:    "obligation = (rule, function or type, construct); non-trivial when a guard fact, sibling row or decode/assert/index site is involved",
 		Assumptions: []string{"encoding/json, schema and crypto/aes behave as documented"},
 		Trusted:     []string{"go/types, go/cfg (x/tools v0.50.0)", "cmd/compile prove pass", "encoding/json, crypto/aes, crypto/cipher"},
